@@ -10,6 +10,7 @@ from sa.report import AnalysisError
 from sa.report import Result
 from sa.report import norm
 from sa.srcmodel import Program
+from sa.srcmodel import dotted
 
 META = {
     "technique": "interprocedural exception-escape analysis: catalogue of partial operations and explicit raises, handler "
@@ -106,6 +107,75 @@ def _is_parser_invariant_assert(e) -> bool:  # noqa: ANN001
         return False
     w = e.what
     return (w.startswith("assert isinstance(") and "Token)" in w) or w.endswith("is not None")
+
+
+_RANGE_POSITIVE = """
+def loop(obj: object, rev: bool):
+    if isinstance(obj, range):
+        it = iter(obj)
+    elif isinstance(obj, Sequence):
+        it = iter(obj)
+    else:
+        raise TypeError
+    if rev:
+        return reversed(list(it))
+    return it
+"""
+
+
+def _range_copy_rule(prog: Program, res: Result) -> None:
+    """C02.R8: a `(a..b)` literal is a Python range whose length the template text chooses (twelve digits: 10**12 elements); iterating
+    it lazily is bounded by the loop limit, copying it is not bounded by anything - MemoryError, which is not a LiquidError, or
+    minutes of allocation for a forty-character template."""
+    from sa.rangeflow import RangeFlow
+
+    res.rule("C02.R8", "a range taken from the render context is never copied into a container (list/tuple/sorted/set/[*x]/join/comprehension over it) by the loop machinery, the stringifiers or the filter-argument coercions: iterators over it stay lazy (may-be-a-range flow with isinstance refinement, per class / per module, sa/rangeflow.py)")
+    import types
+
+    pos_fn = ast.parse(_RANGE_POSITIVE).body[0]
+    fake = types.SimpleNamespace(node=pos_fn, cls=None, qualname="loop", file="<positive>")
+    pos = RangeFlow(prog, {"loop": fake})  # type: ignore[dict-item]
+    if len(pos.copies) != 1:
+        raise AnalysisError("C02.R8: the positive example (reversed(list(iter(range)))) is no longer reported exactly once")
+    groups: list[tuple[str, str, dict]] = []
+    anchors = [("liquid2/builtin/expressions.py", "LoopExpression"), ("liquid2/builtin/expressions.py", None), ("liquid2/stringify.py", None), ("liquid2/filter.py", None)]
+    seen_groups: set[tuple[str, str | None]] = set()
+    for rel, cname in anchors:
+        mod = prog.mod(rel)
+        if cname is not None and cname not in mod.classes:
+            raise AnalysisError(f"C02.R8 anchor {rel}::{cname} vanished")
+        seen_groups.add((rel, cname))
+    # every other class / module that tells ranges apart
+    for mod in prog.modules.values():
+        for n in ast.walk(mod.tree):
+            if isinstance(n, ast.Call) and isinstance(n.func, ast.Name) and n.func.id == "isinstance" and len(n.args) == 2 and "range" in {ast.unparse(x) for x in (n.args[1].elts if isinstance(n.args[1], ast.Tuple) else [n.args[1]])}:
+                fi = prog.enclosing_function(mod, n)
+                if fi is not None:
+                    seen_groups.add((mod.relpath, fi.cls.name if fi.cls is not None else None))
+    for rel, cname in sorted(seen_groups, key=lambda t: (t[0], t[1] or "")):
+        mod = prog.mod(rel)
+        if cname is not None:
+            groups.append((rel, cname, dict(mod.classes[cname].methods)))
+        else:
+            groups.append((rel, "<module functions>", {n: f for n, f in mod.functions.items() if f.cls is None and "." not in n}))
+    n_fn = 0
+    for rel, label, methods in groups:
+        rf = RangeFlow(prog, methods)
+        n_fn += len(methods)
+        for fi in methods.values():
+            res.analysed_functions.add(fi.fid)
+        bad: set[tuple[str, str]] = set()
+        for c in rf.copies:
+            how = (dotted(c.call.func) or "join").split(".")[-1] + "()" if isinstance(c.call, ast.Call) else ("comprehension" if isinstance(c.call, (ast.ListComp, ast.SetComp, ast.DictComp)) else "display with *")
+            key = (c.fn.qualname, how)
+            if key in bad:
+                continue
+            bad.add(key)
+            kinds = " or ".join(sorted(c.kinds - {"other"}))
+            res.fail("C02.R8", file=c.fn.file, line=getattr(c.call, "lineno", 0), qualname=c.fn.qualname, construct=f"{c.fn.qualname}: {how} copies a possible range", message=f"{c.fn.qualname}: `{norm(c.call, 80)}` copies `{c.arg}`, which can be a {kinds} whose length is chosen by the template (`(1..999999999999)`): the allocation is bounded by no limit and ends in MemoryError, which is not a LiquidError", what=f"{c.fn.qualname}: ranges stay lazy")
+        if not rf.copies:
+            res.ok("C02.R8", f"{rel} {label}", f"{len(methods)} functions: no container is built from a value that can be a range or an iterator over one", "may-be-a-range flow")
+    res.floor("C02.R8", "functions analysed for range copies", n_fn, 40)
 
 
 def run(prog: Program, res: Result) -> None:  # noqa: PLR0912, PLR0915
@@ -242,6 +312,7 @@ def run(prog: Program, res: Result) -> None:  # noqa: PLR0912, PLR0915
     from checks.shared import check_definite_assignment
 
     check_definite_assignment(prog, res, "C02.R7")
+    _range_copy_rule(prog, res)
     # ------------------------------------------------------------------ R3 boundary converters
     res.rule("C02.R3", "Filter.evaluate[_async] wraps the dynamic filter call in a handler converting (TypeError, ValueError, ArithmeticError, LookupError, AttributeError, OSError) to LiquidTypeError; render_with_context converts stray LiquidInterrupts")
     flt = prog.mod("liquid2/builtin/expressions.py").classes.get("Filter")
